@@ -199,6 +199,9 @@ def evaluate(c: Dict[str, Any]) -> Tuple[List[Any], Dict[str, Any]]:
 
 
 def replay(case: Dict[str, Any]) -> List[Dict[str, Any]]:
+    if 'lifecycle' in case:
+        vs, _ = lifecycle_history(case['lifecycle'])
+        return [{'property': ID, 'clause': cl, 'features': ft, 'case': case, 'observed': ob, 'expected': ex} for (cl, ft, ob, ex) in vs]
     vs, _ = evaluate(case)
     return [{'property': ID, 'clause': cl, 'features': ft, 'case': case, 'observed': ob, 'expected': ex} for (cl, ft, ob, ex) in vs]
 
@@ -235,6 +238,90 @@ def live_history(n_pub: int, n_subs: int) -> List[Any]:
     return out
 
 
+def lifecycle_history(ops: List[str]) -> Tuple[List[Any], Dict[str, Any]]:
+    """One EventSubscriber OBJECT taken through a lifecycle (setup / unsubscribe / shutdown / setup again ...) on a live
+    EventManager (dispatcher thread, real multiprocessing.Queue), next to a witness subscriber that stays subscribed.
+    Model: the object's callback receives exactly the events published while it is subscribed, in order.
+    Requests and publishes travel through one queue in order, so no waiting is needed between ops except for the relay thread
+    of an unsubscribed object to end.  At the end a sentinel is published; once the WITNESS has it, the object gets three more
+    seconds for what it is still owed - the judgement is relative to the witness, not to absolute time."""
+    import time
+    from proxy.core.event import EventManager, EventSubscriber
+    got: List[int] = []
+    wit: List[int] = []
+    want: List[int] = []
+    out: List[Any] = []
+    info = {'resubscribed': False, 'pubs_while_subscribed': 0}
+    with EventManager() as em:
+        w = EventSubscriber(em.queue, callback=lambda ev: wit.append(ev['event_payload']['n']) if ev.get('event_name') == 7 else None)
+        w.setup()
+        s = EventSubscriber(em.queue, callback=lambda ev: got.append(ev['event_payload']['n']) if ev.get('event_name') == 7 else None)
+        state = 'new'          # new | subscribed | unsubscribed (relay ended by the ack) | down (shutdown() called)
+        n = 0
+        was_sub = False
+
+        def settle() -> None:
+            # An event still on its way when the object unsubscribes or shuts down may legitimately be missed (a race by nature).
+            # Before such an op, wait until the witness has the latest event (the dispatcher has then handled it for everybody)
+            # and give the object's relay a moment to hand it over.
+            t1 = time.time() + 30
+            while n and time.time() < t1 and (not wit or wit[-1] != n):
+                time.sleep(0.01)
+            t2 = time.time() + 3
+            while time.time() < t2 and len(got) < len(want):
+                time.sleep(0.01)
+        for op in ops:
+            if op == 'setup' and state in ('new', 'unsubscribed', 'down'):
+                if was_sub:
+                    info['resubscribed'] = True
+                s.setup()
+                state, was_sub = 'subscribed', True
+            elif op == 'unsubscribe' and state == 'subscribed':
+                settle()
+                s.unsubscribe()
+                th = s.relay_thread
+                if th is not None:
+                    th.join(20)         # the relay ends by itself on the acknowledgement
+                state = 'unsubscribed'
+            elif op == 'shutdown' and state in ('subscribed', 'unsubscribed'):
+                if state == 'subscribed':
+                    settle()
+                s.shutdown(do_unsubscribe=(state == 'subscribed'))
+                state = 'down'
+            elif op == 'pub':
+                n += 1
+                em.queue.publish(request_id='r%d' % n, event_name=7, event_payload={'n': n}, publisher_id='vf')
+                if state == 'subscribed':
+                    want.append(n)
+                    info['pubs_while_subscribed'] += 1
+        n += 1
+        em.queue.publish(request_id='r%d' % n, event_name=7, event_payload={'n': n}, publisher_id='vf')      # sentinel
+        if state == 'subscribed':
+            want.append(n)
+        deadline = time.time() + 30
+        while time.time() < deadline and (not wit or wit[-1] != n):
+            time.sleep(0.02)
+        witness_done = bool(wit) and wit[-1] == n
+        t_end = time.time() + 3
+        while time.time() < t_end and len(got) < len(want):
+            time.sleep(0.02)
+        try:
+            if state in ('subscribed', 'unsubscribed'):
+                s.shutdown(do_unsubscribe=(state == 'subscribed'))
+            w.shutdown()
+        except Exception as e:     # noqa: a shutdown that raises is part of the lifecycle under test
+            out.append(('subscriber-shutdown-raises', {'lifecycle': True, 'exc': type(e).__name__}, repr(e), None))
+    feat = {'lifecycle': True, 'resubscribed': info['resubscribed']}
+    if not witness_done:
+        info['inconclusive'] = True
+        return out, info
+    if wit != list(range(1, n + 1)):
+        out.append(('witness-deliveries-differ', feat, wit[:20], list(range(1, min(n, 20) + 1))))
+    if got != want:
+        out.append(('subscriber-object-deliveries-differ', feat, {'got': got[:20], 'ops': ops}, {'want': want[:20]}))
+    return out, info
+
+
 def shards(tier: str) -> List[Dict[str, Any]]:
     q = tier == 'quick'
     maxlen = 5 if q else 6
@@ -243,6 +330,7 @@ def shards(tier: str) -> List[Dict[str, Any]]:
         out.append({'name': 'exh-first%d' % first, 'kind': 'exh', 'first': first, 'maxlen': maxlen})
     for i in range(8 if q else 16):
         out.append({'name': 'sampled-%d' % i, 'kind': 'sampled', 'examples': 500 if q else 7000})
+    out.append({'name': 'subscriber-lifecycles', 'kind': 'lifecycle', 'examples': 25 if q else 400})
     if not q:
         out.append({'name': 'live', 'kind': 'live', 'runs': 40})
     return out
@@ -266,6 +354,17 @@ def run_shard(spec: Dict[str, Any], seed: int, acc: Any) -> None:
             acc.case({'live': i}, True, labels=('live',))
             for (cl, ft, ob, ex) in vs:
                 acc.fail({'live': i}, cl, ft, ob, ex)
+        return
+    if spec['kind'] == 'lifecycle':
+        lops = st.lists(st.sampled_from(['setup', 'setup', 'pub', 'pub', 'unsubscribe', 'shutdown']), min_size=2, max_size=12)
+
+        def chk_l(c: Dict[str, Any]) -> List[Any]:
+            vs, info = lifecycle_history(c['lifecycle'])
+            if info.get('inconclusive'):
+                acc.dontcare += 1
+            acc.case(c, info['resubscribed'] and info['pubs_while_subscribed'] >= 1, labels=('subscriber-lifecycle',) + (('resubscribed',) if info['resubscribed'] else ()))
+            return vs
+        hyp.drive(st.fixed_dictionaries({'lifecycle': lops}), chk_l, acc, max_examples=spec['examples'], seed=seed, shrink=False)
         return
     ids = st.sampled_from(['A', 'B', 'C'])
     op = st.one_of(st.tuples(st.just('sub'), ids, st.booleans()).map(list), st.tuples(st.just('unsub'), st.sampled_from(['A', 'B', 'C', 'Z'])).map(list),
